@@ -49,11 +49,11 @@ def hashioHandler : Handler
       -- specification: accepted iff the recorded text is the hex form of the stream's digest
       -- under the entry's own algorithm (either letter case)
       let lower := hash.map (fun c => if 65 ≤ c ∧ c ≤ 70 then c + 32 else c)
-      let spec := if !Hashio.supported alg then "unsupported"
+      let spec := if !Hashio.supported alg then "err"
         else if lower = Hashio.hexEncode (H alg data) then "accept"
-        else if (Hashio.hexDecode hash).isSome then "reject" else "badhex"
+        else if (Hashio.hexDecode hash).isSome then "reject" else "err"
       pure ((match Hashio.verify H alg hash data with
-        | .accept => "accept" | .reject => "reject" | .unsupported => "unsupported" | .badHex => "badhex") ++ " ; spec=" ++ spec)
+        | .accept => "accept" | .reject => "reject" | .unsupported => "err" | .badHex => "err") ++ " ; spec=" ++ spec)
   | _, _ => none
 
 end GoDebian.Drv
